@@ -125,6 +125,29 @@ def shared_object(w, opt):
                 w.claim(f'{nm}: same structure and hash', w.And(_same(w, back, root), back.hash == root._hashes[-1]))
 
 
+@obligation('C03.maxcell', 'C03', cases=[{'n': n, 'opt': i} for n in (1015, 1016, 1017, 1023) for i in (0, 5)], fuc=FUC,
+            assumes=[CRCASSUME, 'T3 SHA-256 uninterpreted'],
+            descr='cells at the upper end of the data capacity (1015, 1016, 1017, 1023 bits: 127 / 128 data bytes with and without a '
+                  'completion tag) with a child and a sibling: one_from_boc(to_boc(root)) has the same structure and hash; '
+                  'contents symbolic')
+def maxcell(w, n, opt):
+    MC = importlib.import_module('pytoniq_core.boc.cell')
+    MD = importlib.import_module('pytoniq_core.boc.deserialize')
+    from pytoniq_core.boc.cell import Cell
+    leaf = C04.concrete_len_cell(w, 'leaf', 9, [], 1)
+    big = C04.concrete_len_cell(w, 'big', n, [leaf], 2)
+    root = C04.concrete_len_cell(w, 'root', 3, [big, leaf], 3)
+
+    def crc(data, *a):
+        return w.uf('crc32c', w.bytes_seq(data))
+    with w.stub(MC, 'crc32c', crc), w.stub(MD, 'crc32c', crc):
+        data = root.to_boc(**C04.OPTS[opt])
+        k, back = call(Cell.one_from_boc, data)
+    w.claim(f'parses ({back if k != "ok" else ""})', k == 'ok')
+    if k == 'ok':
+        w.claim('same structure and hash', w.And(_same(w, back, root), back.hash == root._hashes[-1]))
+
+
 def _walk(c, out=None):
     out = [] if out is None else out
     out.append(c)
@@ -236,7 +259,7 @@ def native(w):
         cells = []
         for i in range(n):
             b = Builder()
-            b.store_bits(''.join(rng.choice('01') for _ in range(rng.choice([0, 1, 7, 8, 9, 33, 255, 1023 if not cells else 40]))))
+            b.store_bits(''.join(rng.choice('01') for _ in range(rng.choice([0, 1, 7, 8, 9, 33, 255, 1015, 1016, 1017, 1022, 1023]))))
             for _ in range(rng.randrange(0, min(4, len(cells)) + 1)):
                 b.store_ref(rng.choice(cells))
             c = b.end_cell()
